@@ -88,6 +88,8 @@ def translate_expression(expr, env: Env) -> TExp:  # noqa: C901
         # Get the inner type
         inner_type = env[sn.split(".")[0]].ttype
         for i in sn.split(".")[1:]:
+            if int(i) < 0:
+                raise exceptions.OutOfBoundException(0, i)
             if hasattr(inner_type, "BIT_SIZE"):
                 if int(i) < inner_type.BIT_SIZE:
                     inner_type = bool
@@ -99,11 +101,25 @@ def translate_expression(expr, env: Env) -> TExp:  # noqa: C901
                 else:
                     raise exceptions.OutOfBoundException(len(get_args(inner_type)), i)
 
+        def bit_names(t, base):
+            if hasattr(t, "BIT_SIZE"):
+                return [f"{base}.{i}" for i in range(t.BIT_SIZE)]
+            if len(get_args(t)) > 0:
+                return [
+                    n
+                    for i, a in enumerate(get_args(t))
+                    for n in bit_names(a, f"{base}.{i}")
+                ]
+            return [base]
+
         if hasattr(inner_type, "BIT_SIZE"):
             return (
                 inner_type,
                 [Symbol(f"{sn}.{i}") for i in range(inner_type.BIT_SIZE)],
             )
+        elif len(get_args(inner_type)) > 0:
+            # A tuple-typed element: the flat list of its bits, as a tuple-typed name
+            return (inner_type, [Symbol(n) for n in bit_names(inner_type, sn)])
         else:
             return (inner_type, Symbol(sn))
 
